@@ -16,6 +16,7 @@ if ! git apply --3way "$SRC/patch.diff" 2>/tmp/seedapply.err; then
   if ! git apply "$SRC/patch.diff" 2>>/tmp/seedapply.err; then res "patch does not apply: $(head -3 /tmp/seedapply.err)"; cd /; git -C /repo worktree remove --force "$WT"; exit 3; fi
 fi
 git diff HEAD > /tmp/seed-$P-$K.applied.diff
+git reset -q --hard HEAD; git apply /tmp/seed-$P-$K.applied.diff
 if ! go build ./... 2>/tmp/seedbuild.err; then res "does not build: $(head -3 /tmp/seedbuild.err)"; cd /; git -C /repo worktree remove --force "$WT"; exit 3; fi
 # baseline with the change (twice; TestParseRedirAddr is the known offline failure)
 base_ok=1
@@ -35,7 +36,7 @@ for f in "$SRC"/*_test.go "$SRC"/demo/*_test.go; do
   cp "$f" "$d/zz_seed_demo_test.go"
   tn=$(grep -oE '^func (Test[A-Za-z0-9_]+)' "$f" | awk '{print $2}' | paste -sd'|')
   if go test -count=1 -run "^($tn)\$" "./$d" > /tmp/seeddemo.with 2>&1; then demo_with=pass; else demo_with=fail; fi
-  git checkout -q -- . 
+  git reset -q --hard HEAD
   cp "$f" "$d/zz_seed_demo_test.go"
   if go test -count=1 -run "^($tn)\$" "./$d" > /tmp/seeddemo.without 2>&1; then demo_without=pass; else demo_without=fail; fi
   rm -f "$d/zz_seed_demo_test.go"
